@@ -13,6 +13,7 @@ import (
 	"net/url"
 	"strconv"
 	"strings"
+	"sync"
 	"time"
 
 	"golang.org/x/oauth2"
@@ -28,21 +29,59 @@ type Wire struct {
 	JSON        map[string]interface{}
 }
 
+// One loopback server and one keep-alive client connection per process: a
+// server and a connection per case would exhaust the ephemeral port range
+// (TIME_WAIT) during long campaigns.
+var (
+	sockMu     sync.Mutex
+	sockServer *httptest.Server
+	sockWorld  *World
+	sockConn   net.Conn
+	sockReader *bufio.Reader
+)
+
 func (w *World) ensureServer() {
-	if w.server != nil {
+	if sockServer != nil {
 		return
 	}
 	h := http.HandlerFunc(func(rw http.ResponseWriter, r *http.Request) {
-		ctx := context.WithValue(r.Context(), oauth2.HTTPClient, &http.Client{Transport: providerRT{w}})
-		w.Handler.ServeHTTP(rw, r.WithContext(ctx))
+		cur := sockWorld
+		if cur == nil {
+			http.Error(rw, "no world", 503)
+			return
+		}
+		ctx := context.WithValue(r.Context(), oauth2.HTTPClient, &http.Client{Transport: providerRT{cur}})
+		cur.Handler.ServeHTTP(rw, r.WithContext(ctx))
 	})
-	w.server = httptest.NewServer(h)
+	sockServer = httptest.NewServer(h)
+}
+
+func sockDial() error {
+	if sockConn != nil {
+		return nil
+	}
+	c, err := net.DialTimeout("tcp", strings.TrimPrefix(sockServer.URL, "http://"), 2*time.Second)
+	if err != nil {
+		return err
+	}
+	sockConn, sockReader = c, bufio.NewReader(c)
+	return nil
+}
+
+func sockDrop() {
+	if sockConn != nil {
+		sockConn.Close()
+	}
+	sockConn, sockReader = nil, nil
 }
 
 // DoSocket sends the request over a real loopback connection and returns the
 // response head exactly as written by net/http.
 func (w *World) DoSocket(q Req) (*Wire, error) {
+	sockMu.Lock()
+	defer sockMu.Unlock()
 	w.ensureServer()
+	sockWorld = w
 	req := w.BuildRequest(q)
 	var body []byte
 	if req.Body != nil {
@@ -56,32 +95,37 @@ func (w *World) DoSocket(q Req) (*Wire, error) {
 		target += "?" + req.URL.RawQuery
 	}
 	var buf bytes.Buffer
-	fmt.Fprintf(&buf, "%s %s HTTP/1.1\r\nHost: site.example\r\nX-Browser: %d\r\nConnection: close\r\n", req.Method, target, q.Browser)
+	fmt.Fprintf(&buf, "%s %s HTTP/1.1\r\nHost: site.example\r\nX-Browser: %d\r\n", req.Method, target, q.Browser)
 	if ct := req.Header.Get("Content-Type"); ct != "" {
 		fmt.Fprintf(&buf, "Content-Type: %s\r\n", ct)
 	}
 	fmt.Fprintf(&buf, "Content-Length: %d\r\n\r\n", len(body))
 	buf.Write(body)
 
-	addr := strings.TrimPrefix(w.server.URL, "http://")
-	conn, err := net.DialTimeout("tcp", addr, 2*time.Second)
-	if err != nil {
-		return nil, err
-	}
-	defer conn.Close()
-	_ = conn.SetDeadline(time.Now().Add(5 * time.Second))
-	if _, err := conn.Write(buf.Bytes()); err != nil {
-		return nil, err
-	}
-	raw, err := io.ReadAll(bufio.NewReader(conn))
-	if err != nil && len(raw) == 0 {
-		return nil, err
+	var head []byte
+	var rest []byte
+	for attempt := 0; ; attempt++ {
+		if err := sockDial(); err != nil {
+			return nil, err
+		}
+		_ = sockConn.SetDeadline(time.Now().Add(5 * time.Second))
+		_, werr := sockConn.Write(buf.Bytes())
+		var rerr error
+		if werr == nil {
+			head, rest, rerr = readHTTPResponse(sockReader, req.Method)
+		}
+		if werr == nil && rerr == nil {
+			break
+		}
+		sockDrop()
+		if attempt >= 1 {
+			if werr != nil {
+				return nil, werr
+			}
+			return nil, rerr
+		}
 	}
 	out := &Wire{}
-	head, rest := raw, []byte(nil)
-	if i := bytes.Index(raw, []byte("\r\n\r\n")); i >= 0 {
-		head, rest = raw[:i], raw[i+4:]
-	}
 	out.RawHead = string(head)
 	lines := strings.Split(out.RawHead, "\r\n")
 	if len(lines) > 0 {
@@ -90,18 +134,18 @@ func (w *World) DoSocket(q Req) (*Wire, error) {
 			out.Status, _ = strconv.Atoi(parts[1])
 		}
 	}
-	chunked := false
+	closeAfter := false
 	for _, l := range lines[1:] {
 		if len(l) >= 9 && strings.EqualFold(l[:9], "location:") {
 			out.HasLocation = true
 			out.RawLocation = strings.TrimLeft(l[9:], " \t")
 		}
-		if strings.EqualFold(strings.TrimSpace(l), "transfer-encoding: chunked") {
-			chunked = true
+		if strings.EqualFold(strings.TrimSpace(l), "connection: close") {
+			closeAfter = true
 		}
 	}
-	if chunked {
-		rest = dechunk(rest)
+	if closeAfter {
+		sockDrop()
 	}
 	out.Body = rest
 	var m map[string]interface{}
@@ -109,6 +153,73 @@ func (w *World) DoSocket(q Req) (*Wire, error) {
 		out.JSON = m
 	}
 	return out, nil
+}
+
+// readHTTPResponse reads one response (head bytes verbatim, body by
+// Content-Length or chunked encoding) from a keep-alive connection.
+func readHTTPResponse(r *bufio.Reader, method string) (head []byte, body []byte, err error) {
+	var hb bytes.Buffer
+	for {
+		line, e := r.ReadBytes('\n')
+		if e != nil {
+			return nil, nil, e
+		}
+		if len(line) <= 2 && strings.TrimRight(string(line), "\r\n") == "" {
+			break
+		}
+		hb.Write(line)
+	}
+	head = bytes.TrimRight(hb.Bytes(), "\r\n")
+	clen, chunked := -1, false
+	status := 0
+	for i, l := range strings.Split(string(head), "\r\n") {
+		if i == 0 {
+			if p := strings.SplitN(l, " ", 3); len(p) >= 2 {
+				status, _ = strconv.Atoi(p[1])
+			}
+			continue
+		}
+		ll := strings.ToLower(l)
+		if strings.HasPrefix(ll, "content-length:") {
+			clen, _ = strconv.Atoi(strings.TrimSpace(l[15:]))
+		}
+		if strings.HasPrefix(ll, "transfer-encoding:") && strings.Contains(ll, "chunked") {
+			chunked = true
+		}
+	}
+	switch {
+	case method == "HEAD" || status == 204 || status == 304 || (status >= 100 && status < 200):
+		return head, nil, nil
+	case chunked:
+		var raw bytes.Buffer
+		for {
+			line, e := r.ReadBytes('\n')
+			if e != nil {
+				return nil, nil, e
+			}
+			raw.Write(line)
+			n, perr := strconv.ParseInt(strings.TrimSpace(string(line)), 16, 64)
+			if perr != nil {
+				return nil, nil, perr
+			}
+			chunk := make([]byte, n+2)
+			if _, e := io.ReadFull(r, chunk); e != nil {
+				return nil, nil, e
+			}
+			raw.Write(chunk)
+			if n == 0 {
+				break
+			}
+		}
+		return head, dechunk(raw.Bytes()), nil
+	case clen >= 0:
+		body = make([]byte, clen)
+		if _, e := io.ReadFull(r, body); e != nil {
+			return nil, nil, e
+		}
+		return head, body, nil
+	}
+	return head, nil, nil
 }
 
 func dechunk(b []byte) []byte {
